@@ -32,6 +32,7 @@ OBLIGATIONS = {
     "file_over_default": "a config-file value different from the default with no explicit option", "junk_key": "a config file with an undefined key",
     "option_before_subcommand": "a base-parser option that the subcommand does not redeclare, typed before the subcommand",
     "subcommand_redeclares_option": "key/pubkey --output-format (declared by the subcommand itself, with the extra pem choice) covered",
+    "long_digit_string": "a hex / binary digit string of 4095 .. 2M digits (whole and partial bytes) was converted",
     "empty_input": "empty input converted", "odd_nibbles": "hex input with an odd number of digits", "bits_not_multiple_of_8": "binary input "
     "whose length is not a multiple of 8",
 }
@@ -363,7 +364,7 @@ def chk_conv(case):
         except Exception as e:
             return ("exc", f"{type(e).__name__}: {str(e)[:60]}")
     if case["mode"] == "roundtrip":
-        b = bytes.fromhex(case["data"])
+        b = (b"\x00" + filler(case.get("seed", 0), "c20-longdata", case["data_gen"][0] - 1)) if "data_gen" in case else bytes.fromhex(case["data"])
         fo, fi = case["out"], case["in"]
         w = io.TextIOWrapper(io.BytesIO(), encoding="utf-8", newline="")
         r = call(bits.write_bytes, b, w, output_format=fo)
@@ -383,12 +384,26 @@ def chk_conv(case):
         if rd2 != ("ok", b):
             return [(f"C20/convert/roundtrip/{fo}->{fi}/{cls}", f"{fo} -> {fi} -> bytes gives {rd2} for {b.hex()!r}")]
     elif case["mode"] == "text":
-        fmt, s = case["fmt"], case["text"]
+        fmt = case["fmt"]
+        if "text_gen" in case:
+            n, pat = case["text_gen"]        # long digit strings are generated, not stored: n digits of a stated pattern
+            digits = "0123456789abcdef" if fmt == "hex" else "01"
+            if pat == "ends":
+                s = "1" + "0" * (n - 2) + "1" if n >= 2 else "1" * n
+            else:
+                raw_ = filler(case.get("seed", 0), f"c20-long-{fmt}-{n}", (n + 1) // 2 + 1).hex() if fmt == "hex" else \
+                    bin(int.from_bytes(filler(case.get("seed", 0), f"c20-long-{fmt}-{n}", n // 8 + 2), "big"))[2:]
+                s = ("1" + raw_)[:n]
+            assert len(s) == n and set(s) <= set(digits)
+        else:
+            s = case["text"]
         exp = ref_convert_in(fmt, s.encode())
         rd = call(bits.read_bytes, io.TextIOWrapper(io.BytesIO(s.encode()), encoding="utf-8", newline=""), input_format=fmt)
         if rd != ("ok", exp):
             core = s.strip()
             cls = "empty" if not core else ("partial" if (len(core) % (2 if fmt == "hex" else 8)) else "whole")
+            if len(s) > 200:
+                return [(f"C20/convert/read/{fmt}/{cls}/long", f"read_bytes(<{len(s)} {fmt} digits {s[:12]}..{s[-12:]}>, {fmt}) = {str(rd)[:80]}.., expected {exp[:12].hex()}..{exp[-6:].hex()} ({len(exp)}B)")]
             return [(f"C20/convert/read/{fmt}/{cls}", f"read_bytes({s!r}, {fmt}) = {rd}, expected {exp.hex()!r}")]
     elif case["mode"] == "main":
         b = bytes.fromhex(case["data"])
@@ -658,6 +673,27 @@ def run_job(job):
                 if not s:
                     acc.ob("empty_input")
                 acc.check("conv", {"mode": "text", "fmt": fmt, "text": wrap.format(s)}, chk_conv)
+        # long digit strings at / next to the chunk sizes a windowed converter would use, whole and partial bytes
+        from vf.classes import CHUNK_LENGTHS
+        for L_ in [x for x in CHUNK_LENGTHS if x >= 4096 and x <= (1 << 20)]:
+            for fmt in ("hex", "bin"):
+                for n in (L_ - 1, L_, L_ + 1, L_ + (3 if fmt == "bin" else 1) + 8, 2 * L_ + 1):
+                    for pat in ("ends", "fill"):
+                        i += 1
+                        if i % nsh != sh:
+                            continue
+                        acc.evaluations += 1
+                        acc.nontrivial += 1
+                        acc.ob("long_digit_string")
+                        acc.check("conv", {"mode": "text", "fmt": fmt, "text_gen": [n, pat], "seed": seed}, chk_conv)
+        for n in (4095, 65536, 65537, (1 << 20) + 1):
+            for fo, fi in (("bin", "hex"), ("hex", "bin"), ("raw", "bin")):
+                i += 1
+                if i % nsh != sh:
+                    continue
+                acc.evaluations += 1
+                acc.nontrivial += 1
+                acc.check("conv", {"mode": "roundtrip", "data_gen": [n], "seed": seed, "out": fo, "in": fi}, chk_conv)
         for b in [b"", b"\x00", b"\x00\x01", b"\xff", filler(seed, "c20-m", 5), b"\x00" * 4, b"hello world\n"]:
             for fo, fi in itertools.product(fmts, repeat=2):
                 i += 1
